@@ -120,6 +120,21 @@ impl RenderContextBuilder {
                             .into());
                         }
 
+                        // Samples of a CMYK image are C, M, Y and an extra channel of type Black.
+                        let has_black = image_header
+                            .metadata
+                            .ec_info
+                            .iter()
+                            .any(|ec_info| ec_info.is_black());
+                        if !image_header.metadata.xyb_encoded && parsed_icc.is_cmyk() && !has_black
+                        {
+                            tracing::error!("CMYK ICC profile without black channel");
+                            return Err(jxl_bitstream::Error::ValidationFailed(
+                                "CMYK ICC profile without black channel",
+                            )
+                            .into());
+                        }
+
                         let is_supported_icc = parsed_icc.icc_profile().is_empty();
                         if !is_supported_icc {
                             tracing::trace!(
